@@ -175,6 +175,20 @@ def sink_alloc_else_branch(sig, case):
     return sig.get("op") == "sink_alloc" and sig.get("monitor") == "validate" and sig.get("kind") == "use_out_of_scope" and _diag(sig).get("oos_binder") == "alloc"
 
 
+def sink_alloc_loop_carried(sig, case):
+    """sink_alloc into a for loop whose body reads the buffer: no analysis checks that every
+    iteration reads only what it wrote itself (TODO in DoSinkAlloc), so values carried from
+    one iteration to the next become fresh uninitialised memory"""
+    d = _diag(sig)
+    return (
+        sig.get("op") == "sink_alloc"
+        and sig.get("monitor") in ("safety", "equiv")
+        and (sig.get("kind") in ("poison", "diff") or str(sig.get("kind", "")).startswith("event:"))
+        and d.get("sink_scope") == "for"
+        and d.get("scope_reads_buffer") is True
+    )
+
+
 def iter_not_substituted_in_alloc_extent(sig, case):
     """loop rewrites that substitute the iterator through cursors (divide_loop, ...) do not
     reach the extent expressions inside an Alloc's type: an allocation whose extent mentions
